@@ -789,7 +789,7 @@ class Run:
                         if x is not None and x != y and x in live and sh.objs[x]['pk'] is not None and x in self.committed.objs and self.committed.objs[x]['alive'] \
                                 and self.committed.objs[y]['vals'].get(ys['name']) == x:
                             seeds.append((y, ykey, x))
-                if seeds and rng.random() < 0.45:
+                if seeds and rng.random() < 0.6:
                     y, ykey, x = rng.choice(seeds)
                     tgt = [t for t in self.usable(w.sides[rkey]['ent']) if not (sym and t == x)]
                     if tgt:
